@@ -394,7 +394,9 @@ def check_trace(sym, sc: Scenario, pcode: str, want: set, forced_ids=(), cancell
                         sym.check(live_at(B, t), "C05|ran-after-block-ended", f"{k} {n!r} at tick {t} but its block {B!r} was live only during {iv.get(B)}")
                 # everything before j at outer level: blocks that precede and are not enclosing must have ended
                 for i2 in range(0, j):
-                    if S[i2][0] == "block" and S[i2][1] not in blocks and len(S[i2][2]) <= len(blocks):
+                    # (a block that precedes this instruction at its own level or at an enclosing level: its enclosing blocks
+                    #  are a prefix of this instruction's; a block nested in an earlier sibling block is that sibling's business)
+                    if S[i2][0] == "block" and S[i2][1] not in blocks and tuple(S[i2][2]) == tuple(blocks[:len(S[i2][2])]):
                         B = S[i2][1]
                         if "C05" in want:
                             sym.check(ended_by(B, t), "C05|successor-started-before-block-ended",
